@@ -5,7 +5,8 @@ scenario = {"prog": {...c12_rom program spec...}, "imr0", "isr0", "f0", "mti", "
             "events": [[step_index, kind, arg], ...],
             optional: "bp0"/"px0"/"py0" (initial IMEM base pointer / index registers), "imfill" (seed of a
             pattern written to the user IMEM 00-EB), "kbirq" (keyboard-interrupt enable of the machine),
-            "stkwin" (bytes of stack below the initial S that are observed; default c12_rom.STACK_WINDOW)}
+            "stkwin" (bytes of stack below STACK_TOP that are observed; default c12_rom.STACK_WINDOW),
+            "s0" (initial system stack pointer; default STACK_TOP; 0..4 = firmware has not loaded S yet)}
 kinds: key_down/key_up/key_inject (arg = key name), on_down, on_up.
 
 Observation: {"pc","s","f","ba","i","x","y","u","imr","isr","pw" (0 running, 1 halted, 2 off), "ic" (instructions
@@ -55,7 +56,7 @@ class PyMachine:
         self.reset_pc = int(emu.cpu.regs.get(RN.PC))
         regs = emu.cpu.regs
         regs.set(RN.PC, R.MAIN)
-        regs.set(RN.S, R.STACK_TOP)
+        regs.set(RN.S, R.initial_s(sc))
         regs.set(RN.U, R.USTACK_TOP)
         regs.set(RN.BA, int(sc.get("ba0", 0x1234)))
         regs.set(RN.I, int(sc.get("i0", 0x0001)))
